@@ -66,6 +66,9 @@ def gen_repo_world(t, family):
     # declare the model parameters p1/p2); imports cross the language border in both directions
     w.two_langs = family not in GR and t.chance(1, 4, "two-languages")
     w.tools = t.chance(1, 3, "tools-support")
+    # the second language may have a global repository of its own: a file loaded directly with it is served from
+    # there when a model of the first language imports it later
+    w.mm2_repo = w.two_langs and t.chance(1, 2, "second-language-has-its-own-repository")
     for i in range(n):
         d = "" if i == 0 and not t.chance(1, 4, "main-in-sub") else t.pick(DIRS, "dir")
         if family in SP and i > 0:
@@ -368,6 +371,8 @@ class Sys:
                 kw2["textx_tools_support"] = True
             if "builtin_models" in kw:
                 kw2["builtin_models"] = kw["builtin_models"]
+            if getattr(w, "mm2_repo", False):
+                kw2["global_repository"] = True
             self.mm2 = metamodel_from_str(grammar(rrel=rrel), **kw2)
             base2 = {"plainuri": lambda: sp.PlainNameImportURI(glob_args=gargs),
                      "fqnuri": lambda: sp.FQNImportURI(glob_args=gargs),
@@ -379,6 +384,7 @@ class Sys:
                     {"*.*": ScriptedProvider(b2, self.sched, ctx, on_parsed=self._on_parsed) if wrap else b2})
             self.register_lang()
         SIMFS.listener = self._fs
+        self.cache2 = {}  # files loaded directly with the second language (its own global repository)
         self.fail_objproc_for = None
         self.fail_modelproc_for = None
         self.proc_fired = 0
@@ -569,6 +575,29 @@ def run(ctx):
         as_str = ["file", "file", "str", "anon"][t.draw(4, "entry")]
         if as_str == "anon" and not anon_allowed(w, F):
             as_str = "file"
+        if getattr(w, "mm2_repo", False) and t.chance(1, 4, "direct-load-with-second-language"):
+            leaves = [f for f in paths if f.endswith(".n") and not w.files[f].imports]
+            if leaves:
+                X = t.pick(leaves, "direct2-file")
+                ctx.sample["ops"].append(["load-with-second-language", os.path.relpath(X, ROOT)])
+                sysm.opens.clear()
+                sysm.sched.resolved.clear()
+                sysm.sched.calls.clear()
+                sysm.sched.anon_file = None
+                try:
+                    m2 = sysm.mm2.model_from_file(X)
+                except Exception as e:
+                    ctx.violate("C17", "valid-load-fails", famtag + "/second-language", f"{dump_error(e)}")
+                    return
+                want = [] if X in sysm.cache2 else [X]
+                if sorted(sysm.opens) != want:
+                    ctx.violate("C17", "load-once", famtag + "/second-language",
+                                f"opened {sysm.opens}, expected {want}")
+                if X in sysm.cache2 and sysm.cache2[X] is not m2:
+                    ctx.violate("C17", "cached-reload", famtag + "/second-language", "repeated direct load returned another model")
+                sysm.cache2[X] = m2
+                ctx.probe("file-cached-by-the-second-language")
+                continue
         if fam in GR and not getattr(w, "gr_relative", False) and prop in ("C17", "C18") and t.chance(1, 4, "bulk-op"):
             ok = op_bulk(ctx, prop, sysm, w, cache, famtag, global_repo, t, wrap)
             if not ok:
@@ -623,8 +652,12 @@ def op_load(ctx, prop, sysm, w, F, params, cache, famtag, global_repo, as_str, s
         ctx.violate(prop if prop in ("C17", "C27") else "C17", "valid-load-fails", famtag + ("/anon" if anon else ""),
                     f"load of {os.path.relpath(F, ROOT)} failed: {dump_error(e)}")
         return False
+    # files of the second language that its own global repository already holds are served from there
+    borrowed = [f for f in new if f != F and f in sysm.cache2]
+    if borrowed:
+        ctx.probe("import-served-from-the-other-language's-repository")
     # ---- opens: each new file exactly once (a string load does not read its own file)
-    want_opens = sorted(f for f in new if not (as_str and f == F))
+    want_opens = sorted(f for f in new if not (as_str and f == F) and f not in borrowed)
     if sorted(sysm.opens) != want_opens:
         ctx.violate("C17", "load-once", famtag,
                     f"opened {[os.path.relpath(x, ROOT) for x in sorted(sysm.opens)]}, expected "
@@ -642,10 +675,15 @@ def op_load(ctx, prop, sysm, w, F, params, cache, famtag, global_repo, as_str, s
         if got != params:
             ctx.violate("C27", "params-reach-every-model", f"{w.family}/anon-main",
                         f"the string model has parameters {got}, the load was given {params}")
+    for f in borrowed:
+        if by_file.get(f) is not sysm.cache2[f]:
+            ctx.violate("C17", "cached-identity", famtag + "/second-language",
+                        f"{os.path.relpath(f, ROOT)} was loaded directly with its own language before; the importing "
+                        f"model got another instance")
     # ---- C27: parameters on every model created by this load; cached models keep theirs
     for f in new:
         m = by_file.get(f)
-        if m is None:
+        if m is None or f in borrowed:
             continue
         got = dict(getattr(m, "_tx_model_params", {"<missing>": True}))
         if got != params:
@@ -661,7 +699,7 @@ def op_load(ctx, prop, sysm, w, F, params, cache, famtag, global_repo, as_str, s
         for f in new:
             if f in by_file:
                 cache[f] = by_file[f]
-                sysm.params_at[f] = dict(params)
+                sysm.params_at[f] = dict(params) if f not in borrowed else {}
     # reach
     if len(new) > 1:
         ctx.nontrivial = True
@@ -725,7 +763,7 @@ CORRUPTIONS = ["syntax", "dangling", "never", "ambiguous", "objproc", "modelproc
 def op_corrupt_cycle(ctx, prop, sysm, w, F, params, cache, famtag, global_repo, t, wrap, shapes, entry="file"):
     anon = entry == "anon"
     new = new_files(w, F, cache, anon)
-    cands = list(new) + ([F] if anon and F not in new else [])
+    cands = [f for f in new if f == F or f not in sysm.cache2] + ([F] if anon and F not in new else [])
     if not cands:
         return True
     X = t.pick(cands, "failing-file")
@@ -776,8 +814,8 @@ def op_corrupt_cycle(ctx, prop, sysm, w, F, params, cache, famtag, global_repo, 
         dup = Ent("def", target.target.name, target.target.file, None)
         dup.idx = len(w.files[target.target.file].items)
         dup.is_dup = True
-        if target.target.file in cache and target.target.file != X:
-            return True  # only files that are not cached are corrupted
+        if (target.target.file in cache or target.target.file in sysm.cache2) and target.target.file != X:
+            return True  # only files that are not cached (in either language's repository) are corrupted
         w.files[target.target.file].items.append(dup)
         target.dup = dup
     elif kind in ("objproc", "modelproc"):
@@ -831,7 +869,8 @@ def op_corrupt_cycle(ctx, prop, sysm, w, F, params, cache, famtag, global_repo, 
         am = sysm.all_models()
         if am is not None:
             now = [(k, id(v)) for k, v in am.filename_to_model.items()]
-            before_ids = {i for _, i in snap}
+            # (a complete model that the second language's own repository held before the attempt may get registered)
+            before_ids = {i for _, i in snap} | {id(m) for m in sysm.cache2.values()}
             # no model of the failed attempt may remain (new objects), and every file cached earlier must still be
             # there.  String models without a file name are registered as "anonymous<i>" and a later string model
             # takes over the slot of an earlier one (has_model() compares abspath("anonymous0") with the raw key) -
@@ -848,7 +887,7 @@ def op_corrupt_cycle(ctx, prop, sysm, w, F, params, cache, famtag, global_repo, 
             rep = getattr(m, "_tx_model_repository", None)
             if rep is not None:
                 names = {getattr(x, "_tx_filename", None) for x in rep.all_models}
-                if not names <= set(cache) | {None}:
+                if not names <= set(cache) | {None} | set(sysm.cache2):
                     ctx.violate("C18", "surviving-repository-clean", fclass,
                                 f"repository of cached {os.path.relpath(f, ROOT)} holds models of the failed attempt")
                     break
